@@ -82,8 +82,22 @@ func Gen(r *fw.RNG, o Opts) *rs.TypeSystem {
 			t.Kind = "struct"
 			t.StructRepr = strings.TrimPrefix(k, "struct-")
 			nf := 1 + r.Intn(4)
+			// one struct in forty is WIDE: 63–72 scalar fields, so that per-field bookkeeping kept in a machine
+			// word (a bit set of done fields, say) is exercised past its 64th bit (round-3 seed C12-8)
+			wide := r.Chance(1, 40)
+			if wide {
+				nf = 63 + r.Intn(10)
+				if o.ForGen {
+					// the code generator keeps the set of assembled fields in an int: 63 fields is what it
+					// can do; what it emits for 64 and more is C13's wide-struct probe (a known finding)
+					nf = 55 + r.Intn(9)
+				}
+			}
 			for i := 0; i < nf; i++ {
 				ft := pick(shallow)
+				if wide {
+					ft = pick(func(x *rs.Type) bool { return x.Kind == "string" || x.Kind == "int" || x.Kind == "bool" })
+				}
 				f := rs.Field{Name: fmt.Sprintf("f%d", i), Type: use(ft)}
 				switch r.Intn(6) {
 				case 0:
